@@ -8,8 +8,8 @@ static int g_nSched = 0; static Real g_schedTime[8];
 
 class Witness : public TriggeredEventHandler {
 public:
-    Witness(const MobilizedBody& mb, int which, bool negate, Event::Trigger dir)
-    :   TriggeredEventHandler(Stage::Position), mb(mb), which(which), negate(negate) { getTriggerInfo().setTriggerOnRisingSignTransition(dir & Event::Rising ? true : false);
+    Witness(const MobilizedBody& mb, int which, bool negate, Event::Trigger dir, Real window = 0.1)
+    :   TriggeredEventHandler(Stage::Position), mb(mb), which(which), negate(negate) { getTriggerInfo().setRequiredLocalizationTimeWindow(window); getTriggerInfo().setTriggerOnRisingSignTransition(dir & Event::Rising ? true : false);
         getTriggerInfo().setTriggerOnFallingSignTransition(dir & Event::Falling ? true : false); }
     Real getValue(const State& s) const override { Real e = mb.getOneQ(s, 0) - g_c[which]; return negate ? -e : e; }
     void handleEvent(State& s, Real accuracy, bool& shouldTerminate) const override {
@@ -49,6 +49,7 @@ int main(int argc, char** argv) {
     return guarded([&] {
         std::string iname = argOr(argc, argv, 1, "RungeKuttaMerson"), dirs = argOr(argc, argv, 2, "rising"), mode = argOr(argc, argv, 3, "integ");
         bool two = argOr(argc, argv, 4, "") == "two";
+        bool has_rep = argOr(argc, argv, 5, "") == "rep";
         MultibodySystem sys; SimbodyMatterSubsystem matter(sys); GeneralForceSubsystem forces(sys);
         Body::Rigid body(MassProperties(1.0, Vec3(0), Inertia(1)));
         MobilizedBody::Slider slider(matter.Ground(), Transform(), body, Transform());
@@ -60,8 +61,10 @@ int main(int argc, char** argv) {
         bool falling = (dirs == "falling");
         Event::Trigger dir = dirs == "both" ? Event::AnySignChange : (falling ? Event::Falling : Event::Rising);
         // rising: e = q - c goes - -> +.  falling: e = c - q goes + -> -.
-        sys.addEventHandler(new Witness(slider, 0, falling, dir));
-        if (two) sys.addEventHandler(new Witness(slider, 1, falling, dir));
+        // with two witnesses the second one asks for a five times tighter localisation than the first
+        const Real win0 = 0.1, win1 = two ? 0.02 : 0.1;
+        sys.addEventHandler(new Witness(slider, 0, falling, dir, win0));
+        if (two) sys.addEventHandler(new Witness(slider, 1, falling, dir, win1));
         Real tsched = in("tsched", 0.6875, "time");
         if (mode == "stepper") sys.addEventHandler(new Sched(tsched));
         State s = sys.realizeTopology();
@@ -72,15 +75,21 @@ int main(int argc, char** argv) {
         integ->setAccuracy(0.01);
         Real tf = in("tf", 1.0, "time");
         out("q0", q0); out("u0", u0); out("tf", tf);
-        out("wreq", integ->getAccuracyInUse() > 0 ? 0.01 * sys.getDefaultTimeScale() * 0.1 : 0.01 * sys.getDefaultTimeScale() * 0.1);
+        out("wreq", 0.01 * sys.getDefaultTimeScale() * 0.1);
+        out("wreq0", 0.01 * sys.getDefaultTimeScale() * win0); out("wreq1", 0.01 * sys.getDefaultTimeScale() * win1);
         if (mode == "integ") {
             integ->setFinalTime(tf);
             integ->initialize(s);
             int nev = 0, ncallsDone = 0;
+            Real rep = has_rep ? in("rep", 0.359375, "time") : tf;     // a pending report time (before the crossing by default)
+            bool repDone = !has_rep;
             for (int c = 0; c < 8; ++c) {
-                Integrator::SuccessfulStepStatus st = integ->stepTo(tf);
+                Real target = repDone ? tf : rep;
+                Integrator::SuccessfulStepStatus st = integ->stepTo(target);
                 symfp::note(S("status", c).c_str(), std::to_string((int)st));
                 out(S("t", c), integ->getTime());
+                out(S("target", c), target);
+                if (!repDone && st == Integrator::ReachedReportTime && integ->getTime() == rep) repDone = true;
                 if (st == Integrator::ReachedEventTrigger) {
                     { Vec2 w = integ->getEventWindow(); out(S("tlow", c), w[0]); out(S("thigh", c), w[1]); }
                     out(S("qret", c), slider.getOneQ(integ->getState(), 0));
